@@ -4,7 +4,11 @@
   (approximate, rational) inverse C of its midpoint, is strictly diagonally dominant, then every
   matrix of [J] is regular and f has AT MOST ONE zero in H (row-wise mean value theorem).
   Used to certify that a search cell replaced by / discarded in favour of a Newton existence box
-  contains no other solution (C05), and uniqueness claims (C06, C09).  No Mathlib import.
+  contains no other solution (C05), and uniqueness claims (C06, C09).
+  Existence certificate (`existCertVars`, end of the file): Krawczyk operator with the exact rational
+  inverse of the midpoint Jacobian as preconditioner; if K([x]) ⊆ [x] and ‖I − C[J]‖∞ < 1 then, for every
+  value of the parameters, f has a zero in [x] (Banach fixed point; proved in IbexProofs/Props/C09exist.lean).
+  No Mathlib import.
 -/
 import IbexModel.Expr
 import IbexModel.Box
@@ -152,6 +156,93 @@ def replaceCert (progs : List (List Dag × Dag)) (c e : Box) (vars : List Nat) :
   ((List.range c.length).all fun i => vars.contains i ||
       (match c[i]?, e[i]? with | some ci, some ei => Itv.subset ci ei | _, _ => false)) &&
   uniqueCertVars progs (Box.hull c e) vars
+
+/-! ### existence certificate (Krawczyk operator, Banach fixed point) -/
+
+/-- finite bounds in the right order -/
+def boundsQ : Itv → Option (Rat × Rat)
+  | .mk (.fin a) (.fin b) => if a ≤ b then some (a, b) else none
+  | _ => none
+
+/-- pairwise distinct -/
+def nodupB : List Nat → Bool
+  | [] => true
+  | v :: vs => !vs.contains v && nodupB vs
+
+/-- the box `h` where the component `vars[c]` is replaced by the point `xm[c]` (parameters are kept) -/
+def midBox (h : Box) (vars : List Nat) (xm : List Rat) : Box :=
+  h.zipIdx.map fun (q : Itv × Nat) =>
+    if vars.idxOf q.2 < vars.length then Itv.point (xm.getD (vars.idxOf q.2) 0) else q.1
+
+/-- interval evaluation (natural extension) of a scalar function over a box -/
+def evalItv1 (p : List Dag × Dag) (b : Box) : Option Itv :=
+  match Eval.root Alg.itv b (Eval.buildCalls Alg.itv p.1) p.2 with
+  | some v => (match v.d with | [d] => some d | _ => none)
+  | none => none
+
+/-- Σ_k q_k · [x_k] -/
+def dotQ (crow : List Rat) (xs : List Itv) : Itv :=
+  (List.zip crow xs).foldl (fun acc (q : Rat × Itv) => Itv.add acc (Itv.mul (Itv.point q.1) q.2)) (Itv.point 0)
+
+/-- Σ_k [a_k] · [b_k] -/
+def dotI (a b : List Itv) : Itv :=
+  (List.zip a b).foldl (fun acc (q : Itv × Itv) => Itv.add acc (Itv.mul q.1 q.2)) (Itv.point 0)
+
+/-- I − C·[J] -/
+def iterMat (c : List (List Rat)) (j : List (List Itv)) : List (List Itv) :=
+  (precond c j).zipIdx.map fun (row : List Itv × Nat) =>
+    row.1.zipIdx.map fun (e : Itv × Nat) => Itv.sub (Itv.point (if e.2 == row.2 then 1 else 0)) e.1
+
+/-- Σ_k mag(row_k) < 1 -/
+def rowSumLt1 (row : List Itv) : Bool :=
+  match row.mapM magQ with
+  | none => false
+  | some ms => ms.foldl (· + ·) 0 < 1
+
+/-- `l · c = I` exactly, on the leading `m × m` blocks -/
+def leftInvOk (l c : List (List Rat)) (m : Nat) : Bool :=
+  (List.range m).all fun i => (List.range m).all fun k =>
+    (List.range m).foldl (fun acc t => acc + (l.getD i []).getD t 0 * (c.getD t []).getD k 0) 0
+      == (if i == k then 1 else 0)
+
+/-- the existence certificate: for every value of the parameters (the coordinates outside `vars`) in `h`,
+    the square system `progs` in the variables `vars` has a zero in `h`.
+    Krawczyk operator K = x̃ − C f(x̃,[π]) + (I − C [J]) ([x] − x̃) ⊆ [x], with ‖I − C [J]‖∞ < 1 and C regular
+    (C is the exact inverse of the midpoint Jacobian: `mid · C = I` is checked). -/
+def existCertVars (progs : List (List Dag × Dag)) (h : Box) (vars : List Nat) : Bool :=
+  progs.length == vars.length && !Box.isEmpty h && vars.all (· < h.length) && nodupB vars &&
+  match jacobian progs h with
+  | none => false
+  | some jfull =>
+    let j := jfull.map fun row => vars.map fun v => row.getD v .empty
+    match (j.mapM fun row => row.mapM midRat) with
+    | none => false
+    | some mid =>
+      match inverse mid with
+      | none => false
+      | some c =>
+        leftInvOk mid c vars.length &&
+        match vars.mapM (fun v => boundsQ (h.getD v .empty)) with
+        | none => false
+        | some bnds =>
+          let xm := bnds.map fun (ab : Rat × Rat) => (ab.1 + ab.2) / 2
+          match progs.mapM (fun p => evalItv1 p (midBox h vars xm)) with
+          | none => false
+          | some fm =>
+            let mm := iterMat c j
+            let r := List.zipWith (fun v x => Itv.sub (h.getD v .empty) (Itv.point x)) vars xm
+            mm.all rowSumLt1 &&
+            ((List.range vars.length).all fun i =>
+              Itv.subset
+                (Itv.add (Itv.sub (Itv.point (xm.getD i 0)) (dotQ (c.getD i []) fm)) (dotI (mm.getD i []) r))
+                (h.getD (vars.getD i 0) .empty))
+
+/-- square case: all coordinates are variables -/
+def existCert (progs : List (List Dag × Dag)) (h : Box) : Bool := existCertVars progs h (List.range h.length)
+
+/-- existence in `e`, uniqueness in `u ⊇ e` -/
+def existUniqueCertVars (progs : List (List Dag × Dag)) (e u : Box) (vars : List Nat) : Bool :=
+  existCertVars progs e vars && uniqueCertVars progs u vars && Box.subset e u
 
 end Newton
 end Ibex
